@@ -9,6 +9,7 @@ import SafeHtml.Ops.Hist
 import SafeHtml.Ops.C20
 import SafeHtml.Ops.C17
 import SafeHtml.Ops.C04
+import SafeHtml.Ops.C01
 import SafeHtml.Ops.C11
 import SafeHtml.Ops.C10
 import SafeHtml.Ops.C19
@@ -21,10 +22,10 @@ namespace SafeHtml.Driver
 open SafeHtml
 
 def models : List (String → List Bytes → Option String) :=
-  [Ops.C18.model, Ops.Hist.model, Ops.C17.model, Ops.C20.model, Ops.C12.model, Ops.C13.model, Ops.C14.model, Ops.C15.model, Ops.C16.model, Ops.C19.model, Ops.C10.model, Ops.C11.model, Ops.C04.model]
+  [Ops.C18.model, Ops.Hist.model, Ops.C17.model, Ops.C20.model, Ops.C12.model, Ops.C13.model, Ops.C14.model, Ops.C15.model, Ops.C16.model, Ops.C19.model, Ops.C10.model, Ops.C11.model, Ops.C04.model, Ops.C01.model]
 
 def oracles : List (String → List Bytes → List String → Option String) :=
-  [Ops.C18.oracle, Ops.Hist.oracle, Ops.C17.oracle, Ops.C20.oracle, Ops.C12.oracle, Ops.C13.oracle, Ops.C14.oracle, Ops.C15.oracle, Ops.C16.oracle, Ops.C19.oracle, Ops.C10.oracle, Ops.C11.oracle, Ops.C04.oracle]
+  [Ops.C18.oracle, Ops.Hist.oracle, Ops.C17.oracle, Ops.C20.oracle, Ops.C12.oracle, Ops.C13.oracle, Ops.C14.oracle, Ops.C15.oracle, Ops.C16.oracle, Ops.C19.oracle, Ops.C10.oracle, Ops.C11.oracle, Ops.C04.oracle, Ops.C01.oracle]
 
 def runModel (op : String) (a : List Bytes) : String :=
   match models.findSome? (fun f => f op a) with
